@@ -49,6 +49,10 @@ NEST_ASSUME = [
     "facts about Arr.set/Arr.get on reference elements that C01 states only for plain values are explicit hypotheses of notify_updates_array_parent / mutIdx_ok_arrInsert (they are validated by the correspondence on every nested operation)",
 ]
 
+DIGESTER_ASSUME = [
+    'digester model: CircleHash64 / BLAKE3 / Hash64Uint64x2 are uninterpreted parameters (the harness calls the libraries directly and hands the results to the model as oracle tables); caller contracts: the HashInputProvider does not read the scratch buffer it is handed (Reset does not clear it) and is a function of the key; one DigesterBuilder object per map',
+]
+
 PROPS = {
     "C06": {
         "streams": ["codec", "batch", "nested"], "driver": {"codec": "codec", "batch": "batch", "nested": "world"}, "scale": {"batch": 0.34}, "level": "proof",
@@ -105,16 +109,16 @@ PROPS = {
         "explanation": "Theorems: inv_new/insert/set/remove/popIterate/setType (ArrInv: size equations, bands [T/2, 1.5T], per-element inline limit, header copies, cumulative counts, sibling links, >= 2 children at an index root, fresh IDs) for every legal T; full_slab_has_two_elems; two_max_elems_fit; access_agree (positional access = sequential traversal). The arithmetic goes through the regenerated constants: a changed constant that breaks a band stops the proofs. Tie: per-operation dump comparison (every header copy, count sum, size, next link is in the dump). Oracle: VerifyArray / VerifyMap.",
     },
     "C02": {
-        "streams": ["map", "mapcollide", "mpersist"], "driver": {"map": "map", "mapcollide": "map", "mpersist": "map"}, "level": "proof",
-        "trusted_base": LEAN_TB, "assumptions": MAP_ASSUME,
-        "rule": "map histories (set new / overwrite / remove present and absent / get / has / count / pop / type / three iterator flavours) at T in {256,257,511,512,1024,32768,random}; digests: the real digester, the real POOLED digester with a non-injective hash input (genuine collisions on all levels), and adversarial tables (first-level only, deeper levels, all levels, 1-3 digest levels, about one key per digest with large elements); values tiny / mid / around the value limit / just over half the element limit (externalised when larger); distinct = distinct (T, digest mode, length) programs",
-        "explanation": "Theorems: inv_new, get/has/set/remove/pop/count_refines: for EVERY digest function consistent with key equality (any hash distribution), every legal T, every number of digest levels, the map model refines dictionary operations, key-not-found exactly for absent keys, the only other refusal is the collision limit for a NEW key, MapInv (size bands, sorted unique digests, group shapes, routing by first digest, sibling links) preserved. Tie: every operation replayed on the model (observations, net storage effect, dump of every stored slab incl. collision-group slabs, periodic full dumps, decoded registers after commits). Oracle: Go map.",
+        "streams": ["map", "mapcollide", "mpersist", "digester"], "driver": {"map": "map", "mapcollide": "map", "mpersist": "map", "digester": "digester"}, "level": "proof",
+        "trusted_base": LEAN_TB, "assumptions": DIGESTER_ASSUME + MAP_ASSUME,
+        "rule": "map histories (set new / overwrite / remove present and absent / get / has / count / pop / type / three iterator flavours) at T in {256,257,511,512,1024,32768,random}; digests: the real digester, the real POOLED digester with a non-injective hash input (genuine collisions on all levels), and adversarial tables (first-level only, deeper levels, all levels, 1-3 digest levels, about one key per digest with large elements); values tiny / mid / around the value limit / just over half the element limit (externalised when larger); distinct = distinct (T, digest mode, length) programs; digester: ~700 builds through NewDefaultDigesterBuilder/SetSeed/Digest(hip, v) per run, Digest/DigestPrefix/Reset/Levels at random levels (repeated, out of range, 2^64-1), the process-wide pool churned through OrderedMap operations with a colliding hash input (1-4 digesters per operation) and object identity observed through the scratch buffer, every constructor that seeds a builder (private and shared builder objects), goroutines hammering the pool",
+        "explanation": "Theorems: inv_new, get/has/set/remove/pop/count_refines: for EVERY digest function consistent with key equality (any hash distribution), every legal T, every number of digest levels, the map model refines dictionary operations, key-not-found exactly for absent keys, the only other refusal is the collision limit for a NEW key, MapInv (size bands, sorted unique digests, group shapes, routing by first digest, sibling links) preserved. Tie: every operation replayed on the model (observations, net storage effect, dump of every stored slab incl. collision-group slabs, periodic full dumps, decoded registers after commits). Oracle: Go map. Digester (hash.go): theorems Atree.Dig.* - every digest is spec(k0, msg, level) whatever object, cache state, call order or pool history (pooled_history_refines_spec, disciplined_history_refines_spec), Reset = fresh up to scratch, the pool invariant, negative theorems (a Reset that forgets the BLAKE3 cache, use after put, double put, a scratch-reading provider, a shared builder); tie: digester stream replayed on the model with the directly called hash functions as oracle tables.",
     },
     "C12": {
-        "streams": ["mapcollide"], "driver": {"mapcollide": "map"}, "level": "proof",
-        "trusted_base": LEAN_TB, "assumptions": MAP_ASSUME,
-        "rule": "adversarial digest tables over 1-4 levels (alphabets of 2-8 values per level), collision limits 0,1,2,3,255, insert/update/remove mixes incl. grow-then-shrink; distinct = distinct programs",
-        "explanation": "Theorems: limit_refuses_new_key, limit_allows_update_and_room (refusal exactly when the first-level group already holds more than the limit and the key is new; an error returns no new state), order_canonical (ascending lexicographic digest order, full collisions in insertion order); group shapes (inline group born with two keys, exported to an external slab exactly when a first-level group exceeds the element limit, collapsed to a single element, insertion-ordered list when digests are exhausted) are part of ElemsInv, preserved by C02's theorems. Oracle: Go map + VerifyMap + no storage effect after a refusal.",
+        "streams": ["mapcollide", "digester"], "driver": {"mapcollide": "map", "digester": "digester"}, "level": "proof",
+        "trusted_base": LEAN_TB, "assumptions": DIGESTER_ASSUME + MAP_ASSUME,
+        "rule": "adversarial digest tables over 1-4 levels (alphabets of 2-8 values per level), collision limits 0,1,2,3,255, insert/update/remove mixes incl. grow-then-shrink; distinct = distinct programs; digester: ~700 builds through NewDefaultDigesterBuilder/SetSeed/Digest(hip, v) per run, Digest/DigestPrefix/Reset/Levels at random levels (repeated, out of range, 2^64-1), the process-wide pool churned through OrderedMap operations with a colliding hash input (1-4 digesters per operation) and object identity observed through the scratch buffer, every constructor that seeds a builder (private and shared builder objects), goroutines hammering the pool",
+        "explanation": "Theorems: limit_refuses_new_key, limit_allows_update_and_room (refusal exactly when the first-level group already holds more than the limit and the key is new; an error returns no new state), order_canonical (ascending lexicographic digest order, full collisions in insertion order); group shapes (inline group born with two keys, exported to an external slab exactly when a first-level group exceeds the element limit, collapsed to a single element, insertion-ordered list when digests are exhausted) are part of ElemsInv, preserved by C02's theorems. Oracle: Go map + VerifyMap + no storage effect after a refusal. Digester (hash.go): theorems Atree.Dig.* - every digest is spec(k0, msg, level) whatever object, cache state, call order or pool history (pooled_history_refines_spec, disciplined_history_refines_spec), Reset = fresh up to scratch, the pool invariant, negative theorems (a Reset that forgets the BLAKE3 cache, use after put, double put, a scratch-reading provider, a shared builder); tie: digester stream replayed on the model with the directly called hash functions as oracle tables.",
     },
     "C03": {
         "streams": ["persist", "mpersist", "storage", "nested", "slabid"], "driver": {"persist": "array", "mpersist": "map", "storage": "storage", "nested": "world", "slabid": "slabid"}, "level": "proof",
@@ -125,12 +129,12 @@ PROPS = {
         "explanation": "Theorems (storage level): only_commit_touches_ledger, uncommitted_never_reaches_ledger, commit_durable_on_reopen, crash_recovers_last_commit, temp_never_written + the regenerated fact that only the commit functions call BaseStorage.Store/Remove. Tie: the composition array model + storage state machine reproduces every register (decoded dump) after every commit and the reopened tree after every crash. Oracle: reload on a fresh storage vs a shadow slice; ledger call log empty between commits.",
     },
     "C04": {
-        "streams": ["determ", "storage", "map", "slabid"], "driver": {"storage": "storage", "map": "map", "slabid": "slabid"}, "level": "proof",
-        "trusted_base": LEAN_TB, "assumptions": STORAGE_ASSUME + [
+        "streams": ["determ", "storage", "map", "slabid", "digester"], "driver": {"storage": "storage", "map": "map", "slabid": "slabid", "digester": "digester"}, "level": "proof",
+        "trusted_base": LEAN_TB, "assumptions": DIGESTER_ASSUME + STORAGE_ASSUME + [
             "NOT exhibited by the model (exercised by the harness, not proved): real goroutine scheduling, Go's randomised map iteration, sync.Pool reuse, process identity",
             "the map seed is an uninterpreted function of the root slab ID in the model; the harness recomputes circlehash(address, index) independently"],
-        "rule": "scripts of 300 array+map operations with commits, each executed under GOMAXPROCS {1,4,16} x workers {1,2,3,8,64} x {FastCommit, NondeterministicFastCommit} x ledger scheduling jitter and once in a fresh child process; distinct = distinct final ledgers; slabid: the real sort of FastCommit's key list on write sets of boundary identifiers (carries across every byte, 2^63, 2^64-1) and SlabID.Compare on thousands of pairs, replayed on the byte-level identifier model",
-        "explanation": "Theorems: fastcommit_order_sorted (ascending (owner,index) call order for every write set and fault plan), lt_strict_total, fastcommit_schedule_invariant (any worker count, any finishing schedule = sequential), nondet_commit_same_final_ledger (same ledger, call multiset equal), source_premises (worker closures write-free, pools reset before Put; regenerated); byte level (SlabIdB.*): SlabID.Compare = the numeric (owner,index) order the model sorts by, the comparator of sortedOwnedDeltaKeys is that same order, the byte-level sorted key list maps exactly onto the model's. Oracle: byte-identical registers, identical observations and ordered call logs across all configurations and a fresh process.",
+        "rule": "scripts of 300 array+map operations with commits, each executed under GOMAXPROCS {1,4,16} x workers {1,2,3,8,64} x {FastCommit, NondeterministicFastCommit} x ledger scheduling jitter and once in a fresh child process; distinct = distinct final ledgers; slabid: the real sort of FastCommit's key list on write sets of boundary identifiers (carries across every byte, 2^63, 2^64-1) and SlabID.Compare on thousands of pairs, replayed on the byte-level identifier model; digester: ~700 builds through NewDefaultDigesterBuilder/SetSeed/Digest(hip, v) per run, Digest/DigestPrefix/Reset/Levels at random levels (repeated, out of range, 2^64-1), the process-wide pool churned through OrderedMap operations with a colliding hash input (1-4 digesters per operation) and object identity observed through the scratch buffer, every constructor that seeds a builder (private and shared builder objects), goroutines hammering the pool",
+        "explanation": "Theorems: fastcommit_order_sorted (ascending (owner,index) call order for every write set and fault plan), lt_strict_total, fastcommit_schedule_invariant (any worker count, any finishing schedule = sequential), nondet_commit_same_final_ledger (same ledger, call multiset equal), source_premises (worker closures write-free, pools reset before Put; regenerated); byte level (SlabIdB.*): SlabID.Compare = the numeric (owner,index) order the model sorts by, the comparator of sortedOwnedDeltaKeys is that same order, the byte-level sorted key list maps exactly onto the model's. Oracle: byte-identical registers, identical observations and ordered call logs across all configurations and a fresh process. Digester (hash.go): theorems Atree.Dig.* - every digest is spec(k0, msg, level) whatever object, cache state, call order or pool history (pooled_history_refines_spec, disciplined_history_refines_spec), Reset = fresh up to scratch, the pool invariant, negative theorems (a Reset that forgets the BLAKE3 cache, use after put, double put, a scratch-reading provider, a shared builder); tie: digester stream replayed on the model with the directly called hash functions as oracle tables.",
     },
     "C08": {
         "streams": ["cache", "compact", "storage"], "driver": {"storage": "storage"}, "level": "proof",
@@ -140,11 +144,11 @@ PROPS = {
         "explanation": "Theorems: reload_is_identity, schedule_independent_outcomes, schedule_independent_ledger (any two schedules of {commit (both kinds), drop cache, commit+reopen} give the same observations, view and final ledger). Oracle: observations, final content, VerifyArray/VerifyMap and final registers equal across schedules on the real code.",
     },
     "C16": {
-        "streams": ["parallel", "parfault", "storage"], "driver": {"storage": "storage"}, "level": "proof", "race": ["parallel"],
-        "trusted_base": LEAN_TB, "assumptions": STORAGE_ASSUME + [
+        "streams": ["parallel", "parfault", "storage", "digester"], "driver": {"storage": "storage", "digester": "digester"}, "level": "proof", "race": ["parallel", "digester"],
+        "trusted_base": LEAN_TB, "assumptions": DIGESTER_ASSUME + STORAGE_ASSUME + [
             "NOT exhibited by the model (exercised under the Go race detector, not proved): data races in the Go memory model, real preemption, sync.Pool internals, concurrent writes to process-wide settings"],
-        "rule": "8 client goroutines with own storages running 200-op scripts concurrently (workers 1..64, both commits, ledger jitter, GOMAXPROCS 2/8/16) vs alone; parallel preload 1..64 workers vs sequential; the same stream again in a -race build; child processes running 8-worker commits/preloads that FAIL midway (ledger fault at call 0..3, corrupted register) with slow encoders - a crash of the child is a violation",
-        "explanation": "Theorems about the message-passing model of the worker pools: pool_results_perm, pool_results_bounded (result channel never over capacity), pool_terminates, parallel_commit_sequential_equal, parallel_preload_sequential_equal. Oracle: results equal to sequential/alone runs; zero race-detector reports.",
+        "rule": "8 client goroutines with own storages running 200-op scripts concurrently (workers 1..64, both commits, ledger jitter, GOMAXPROCS 2/8/16) vs alone; parallel preload 1..64 workers vs sequential; the same stream again in a -race build; child processes running 8-worker commits/preloads that FAIL midway (ledger fault at call 0..3, corrupted register) with slow encoders - a crash of the child is a violation; digester: ~700 builds through NewDefaultDigesterBuilder/SetSeed/Digest(hip, v) per run, Digest/DigestPrefix/Reset/Levels at random levels (repeated, out of range, 2^64-1), the process-wide pool churned through OrderedMap operations with a colliding hash input (1-4 digesters per operation) and object identity observed through the scratch buffer, every constructor that seeds a builder (private and shared builder objects), goroutines hammering the pool",
+        "explanation": "Theorems about the message-passing model of the worker pools: pool_results_perm, pool_results_bounded (result channel never over capacity), pool_terminates, parallel_commit_sequential_equal, parallel_preload_sequential_equal. Oracle: results equal to sequential/alone runs; zero race-detector reports. Digester (hash.go): theorems Atree.Dig.* - every digest is spec(k0, msg, level) whatever object, cache state, call order or pool history (pooled_history_refines_spec, disciplined_history_refines_spec), Reset = fresh up to scratch, the pool invariant, negative theorems (a Reset that forgets the BLAKE3 cache, use after put, double put, a scratch-reading provider, a shared builder); tie: digester stream replayed on the model with the directly called hash functions as oracle tables.",
     },
     "C17": {
     "streams": ["batch"], "driver": {"batch": "batch"}, "level": "proof",
